@@ -14,16 +14,23 @@ EXTENDS MC_Gauss, SequencesExt
 HomAngles  == <<A0, APi2, a345, am345>>
 HomValues  == <<Q(1, 2), Q(-3, 4), Zero>>
 HetValues  == << <<Q(1, 4), Q(-1, 2)>>, <<Zero, Zero>>, <<Q(-1, 2), Q(1, 4)>> >>
-HomCase(m, a, x) == [kind |-> "hom", m |-> m, a |-> a, x |-> x, bmean |-> HomBornMean(st, m, a), bvar |-> HomBornVar(st, m, a),
-                     post |-> Homodyne(st, m, a, x)]
-HetCase(m, al)   == [kind |-> "het", m |-> m, al |-> al, bmean |-> HetBornMean(st, m), bcov |-> HetBornCov(st, m),
-                     post |-> Heterodyne(st, m, al)]
-HomCases == [i \in 1 .. Len(st.modes) * Len(HomAngles) * Len(HomValues) |->
+HomCase(s, m, a, x) == [kind |-> "hom", m |-> m, a |-> a, x |-> x, bmean |-> HomBornMean(s, m, a), bvar |-> HomBornVar(s, m, a),
+                     post |-> Homodyne(s, m, a, x)]
+HetCase(s, m, al)   == [kind |-> "het", m |-> m, al |-> al, bmean |-> HetBornMean(s, m), bcov |-> HetBornCov(s, m),
+                     post |-> Heterodyne(s, m, al)]
+HomCasesOf(s) == [i \in 1 .. Len(s.modes) * Len(HomAngles) * Len(HomValues) |->
                LET mi == (i - 1) \div (Len(HomAngles) * Len(HomValues))
                    r  == (i - 1) % (Len(HomAngles) * Len(HomValues))
-               IN  HomCase(st.modes[mi + 1], HomAngles[(r \div Len(HomValues)) + 1], HomValues[(r % Len(HomValues)) + 1])]
-HetCases == [i \in 1 .. Len(st.modes) * Len(HetValues) |->
-               HetCase(st.modes[((i - 1) \div Len(HetValues)) + 1], HetValues[((i - 1) % Len(HetValues)) + 1])]
+               IN  HomCase(s, s.modes[mi + 1], HomAngles[(r \div Len(HomValues)) + 1], HomValues[(r % Len(HomValues)) + 1])]
+HetCasesOf(s) == [i \in 1 .. Len(s.modes) * Len(HetValues) |->
+               HetCase(s, s.modes[((i - 1) \div Len(HetValues)) + 1], HetValues[((i - 1) % Len(HetValues)) + 1])]
+\* the cases are computed once per state and carried in a variable (the laws below and the emission all read them)
+VARIABLE mc
+HomCases == mc.hom
+HetCases == mc.het
+InitM == Init /\ mc = [hom |-> HomCasesOf(st), het |-> HetCasesOf(st)]
+NextM == Next /\ mc' = [hom |-> HomCasesOf(st'), het |-> HetCasesOf(st')]
+SpecM == InitM /\ [][NextM]_<<vars, mc>>
 RECURSIVE TuplesOfM(_, _)
 TuplesOfM(S, k) == IF k = 0 THEN {<< >>} ELSE {Append(t, m) : t \in TuplesOfM(S, k - 1), m \in S}
 DistinctT(t)    == \A i, j \in DOMAIN t : i # j => t[i] # t[j]
